@@ -33,7 +33,7 @@ MODEL_ONLY = {"macho_cmd_hdr_outside": 3, "macho_cmd_too_big": 3, "macho_cmd_too
               "macho_fat_table_outside": 3, "elf_table_wraps": 2, "elf_table_outside": 4,
               "pe_available_before": 3, "pe_available_after": 3, "pe_rich_nthdr_reject": 2, "pe_exports_table_outside": 3, "pe_export_names_outside": 3,
               "pe_security_dir_reject": 3, "dotnet_blob4_ok": 3, "dotnet_blob_entry_outside": 4, "dotnet_blob_index_reject": 4,
-              "dotnet_attr_blob_reject": 4, "dotnet_attr_str_outside": 4, "elf_str_entry_outside": 2}
+              "dotnet_attr_blob_reject": 4, "dotnet_attr_str_outside": 4, "elf_str_entry_outside": 2, "pe_fullname_guard_covers_index": 1}
 U32_ARGS = {"pe_rich_nthdr_reject": [1], "pe_exports_table_outside": [2], "pe_export_names_outside": [2], "pe_security_dir_reject": [1, 2],
             "dotnet_blob_entry_outside": [3], "dotnet_blob_index_reject": [3], "dotnet_attr_blob_reject": [3]}
 U8_ARGS = {"dotnet_attr_str_outside": [3]}
@@ -49,6 +49,7 @@ MEANING = {
     "dotnet_attr_blob_reject": ("0", lambda a: a[0] + a[1] + (1 << 32) <= TOP and a[2] <= a[0] + a[1], lambda a: a[3] >= 3 and a[2] + a[3] <= a[0] + a[1]),
     "dotnet_attr_str_outside": ("0", lambda a: a[0] + a[1] + (1 << 32) <= TOP and a[2] <= a[0] + a[1], lambda a: a[2] + a[3] <= a[0] + a[1]),
     "dotnet_blob_index_reject": ("0", lambda a: a[0] + a[1] < TOP, lambda a: a[3] != 0 and a[2] < a[0] + a[1]),
+    "pe_fullname_guard_covers_index": ("0", lambda a: a[0] < TOP - 1, lambda a: False),   # the size guarded before `string[len]` is read must exceed len
     "macho_cmd_too_big": ("0", lambda a: a[1] <= a[0], lambda a: a[1] + a[2] <= a[0]),
     "macho_fat_table_outside": ("0", lambda a: a[1] < (1 << 32) and a[2] <= 32, lambda a: 8 + a[1] * a[2] <= a[0]),
 }
@@ -286,6 +287,14 @@ def gen_fuzz_cases(r, tier, sds):
                 rest = [c for c in cc if c not in keep]
                 r.shuffle(rest); cc = keep[:200] + rest[:60]
             for ops, kind in cc:
+                add(s[0], ops, s[2], kind)
+    # (b8) COFF string table at EOF with "/<n>" section names; version resources with 60..130 distinct keys (dictionary growth past its initial 64 slots)
+    for s in sds:
+        if s[2] in ("pe", "dotnet") and len(s[1]) <= (420000 if quick else 3000000):
+            cc = M.coff_name_cases(r, s[1])
+            if quick and len(cc) > 16:
+                r.shuffle(cc); cc = cc[:16]
+            for ops, kind in cc + M.many_keys_cases(r, s[1]):
                 add(s[0], ops, s[2], kind)
     # (c) truncation at every structure boundary of every seed (all deltas for the smallest seed of each format)
     for fmt in fmts:
